@@ -29,6 +29,9 @@ REQUIRE = {"container_succeeded": 500, "container_failed": 500, "suspension_fini
 
 def cases(tier, seed, shard, nshards):
     rng = rng_for(ID, seed, shard)
+    for _m in range(2 if tier == "quick" else 40):
+        # many containers start in one tick and overload one overcommitted pool: 9 .. 60 pool-level kills in one tick
+        yield _exec.mass_start_case(rng)
     if tier == "thorough" or shard < 3:
         for _b in range(1 if tier == "quick" else 2):
             yield _exec.busy_case(rng, 4500 if tier == "quick" else 9000, p_suspend=0.1)
